@@ -932,3 +932,162 @@ func RunN3(c *Ctx, pkgs []string) {
 	}
 	c.R.Extra["belief_candidates"] = n
 }
+
+// RunPreconditions (E4.R-precondition): standard-library calls that panic when an argument violates a documented
+// precondition (time.NewTicker(d<=0), Builder.Grow(n<0), strings.Repeat(count<0), make with a negative size,
+// math/rand.Intn(n<=0), crypto/rand.Int(max<=0)) must be dominated by a check of that argument, or the argument
+// must be non-negative / positive by construction; otherwise the site must be in the reviewed table.
+func RunPreconditions(c *Ctx, pkgs []string, allowed []allowSite) {
+	in := map[string]bool{}
+	for _, p := range pkgs {
+		in[p] = true
+	}
+	type pre struct {
+		arg      int
+		positive bool // strictly > 0 (else >= 0)
+	}
+	table := map[string]pre{
+		"time.NewTicker": {0, true}, "strings.Repeat": {1, false}, "bytes.Repeat": {1, false},
+		"mathrand.Intn": {0, true}, "mathrand.Int63n": {0, true}, "mathrand.Int31n": {0, true},
+	}
+	mtable := map[string]pre{"Grow": {0, false}}
+	allow := map[string]string{}
+	used := map[string]bool{}
+	for _, a := range allowed {
+		allow[a.fn+"|"+a.expr] = a.why
+	}
+	var nonNeg func(t *Term, st *fstate, strict bool) bool
+	nonNeg = func(t *Term, st *fstate, strict bool) bool {
+		zero := mk("const", "0")
+		if st.has(fact("lt", zero, t)) {
+			return true
+		}
+		if !strict && st.has(fact("le", zero, t)) {
+			return true
+		}
+		switch t.K {
+		case "var":
+			// through a still-valid definition
+			for _, fc := range st.facts {
+				if fc.S == "def" && len(fc.A) == 2 && fc.A[0].Key() == t.Key() {
+					return nonNeg(fc.A[1], st, strict)
+				}
+			}
+		case "const":
+			if len(t.S) > 0 && t.S[0] >= '0' && t.S[0] <= '9' {
+				return !strict || t.S != "0"
+			}
+			if cst, ok := t.Obj.(*types.Const); ok {
+				if v, exact := constInt(cst); exact {
+					return v > 0 || (!strict && v == 0)
+				}
+			}
+		case "call":
+			if (t.S == "len" || t.S == "cap") && !strict {
+				return true
+			}
+		case "conv":
+			if len(t.A) == 1 {
+				return nonNeg(t.A[0], st, strict)
+			}
+		case "op":
+			if len(t.A) == 2 && (t.S == "+" || t.S == "*") {
+				if strict {
+					return (nonNeg(t.A[0], st, true) && nonNeg(t.A[1], st, false)) || (nonNeg(t.A[0], st, false) && nonNeg(t.A[1], st, true) && t.S == "+")
+				}
+				return nonNeg(t.A[0], st, false) && nonNeg(t.A[1], st, false)
+			}
+		}
+		return false
+	}
+	n := 0
+	for _, fi := range c.P.Funcs {
+		if fi.Body == nil || (!in[shortPkg(fi.Pkg.PkgPath)] && !fi.Ctl) {
+			continue
+		}
+		// cheap pre-filter on the AST
+		interesting := false
+		ast.Inspect(fi.Body, func(nd ast.Node) bool {
+			if call, ok := nd.(*ast.CallExpr); ok {
+				switch f := unparen(call.Fun).(type) {
+				case *ast.SelectorExpr:
+					switch f.Sel.Name {
+					case "NewTicker", "Repeat", "Intn", "Int63n", "Int31n", "Grow", "Int":
+						interesting = true
+					}
+				case *ast.Ident:
+					if f.Name == "make" && len(call.Args) >= 2 {
+						interesting = true
+					}
+				}
+			}
+			return !interesting
+		})
+		if !interesting {
+			continue
+		}
+		f := c.e1().analyse(fi)
+		for _, s := range f.sites {
+			if s.kind != "call" {
+				continue
+			}
+			var p pre
+			var arg *Term
+			name := ""
+			switch s.term.K {
+			case "call":
+				if pr, ok := table[s.term.S]; ok && pr.arg < len(s.term.A) {
+					p, arg, name = pr, s.term.A[pr.arg], s.term.S
+				} else if s.term.S == "make" && len(s.term.A) >= 2 {
+					p, arg, name = pre{1, false}, s.term.A[1], "make"
+				} else if s.term.S == "rand.Int" && len(s.term.A) == 2 {
+					p, arg, name = pre{1, true}, s.term.A[1], "crypto/rand.Int"
+				}
+			case "mcall":
+				if pr, ok := mtable[s.term.S]; ok && len(s.term.A) == 2 {
+					if ce, ok := s.node.(*ast.CallExpr); ok {
+						if sel, ok := unparen(ce.Fun).(*ast.SelectorExpr); ok {
+							ts := typeStr(derefType(fi.Pkg.TypesInfo.TypeOf(sel.X)))
+							if ts == "strings.Builder" || ts == "bytes.Buffer" {
+								p, arg, name = pr, s.term.A[1], ts+".Grow"
+							}
+						}
+					}
+				}
+			}
+			if arg == nil {
+				continue
+			}
+			n++
+			okAll := true
+			for _, st := range s.states {
+				if !nonNeg(arg, st, p.positive) {
+					okAll = false
+				}
+			}
+			key := fi.Root().Name + "|" + name + "(" + arg.String() + ")"
+			why := ""
+			if !okAll {
+				if w, ok := allow[key]; ok {
+					okAll, why = true, w
+					used[key] = true
+				}
+			}
+			need := ">= 0"
+			if p.positive {
+				need = "> 0"
+			}
+			c.R.Obl(Obligation{Rule: "E4.R-precondition", Func: fi.Name, Construct: name + " argument " + arg.String() + " " + need, Pos: c.P.Position(s.pos), Discharged: okAll, Nontrivial: true, How: []string{why}, Ctl: fi.Ctl})
+			if !okAll {
+				c.R.Find(Finding{Rule: "E4.R-precondition", Func: fi.Name, Construct: name + "(" + arg.String() + ") without a dominating check", Pos: c.P.Position(s.pos),
+					Msg: fmt.Sprintf("%s panics unless its argument is %s; `%s` is not checked on every path to this call and is not non-negative by construction", name, need, arg), Ctl: fi.Ctl})
+			}
+		}
+	}
+	c.R.Extra["precondition_sites"] = n
+	for k := range allow {
+		if !used[k] {
+			c.R.Find(Finding{Rule: "vacuity", Func: k, Construct: "E4.R-precondition allow-list", Pos: "-", Msg: "allow-listed precondition site no longer exists or is now guarded: remove the entry"})
+		}
+	}
+}
